@@ -983,3 +983,708 @@ Proof.
     right. exists g, m, 2, AwaitPubrec, d, sp, n. split; [reflexivity|]. split; [split; reflexivity|].
     eapply bp_proceed_fw. exact Ho.
 Qed.
+
+(* ================================================================== observed packets *)
+
+Lemma cstart_wire m : cstart (wire m) = cstart m.
+Proof.
+  destruct m; try reflexivity. cbn [wire cstart].
+  destruct (N.eqb_spec qos 0) as [->|Hq]; reflexivity.
+Qed.
+
+Lemma quiet_MQ os m : all_mq quiet os -> In m (MQ os) -> cstart m = [].
+Proof.
+  intros Hq Hin. apply in_mqs_obs_of_outs in Hin. destruct Hin as (t & m0 & Hin & ->).
+  rewrite cstart_wire. exact (Hq t m0 Hin).
+Qed.
+
+Lemma quiet_MQ_bind os : all_mq quiet os -> forall i, ~ In i (MQ os ≫= cstart).
+Proof.
+  intros Hq i Hin. apply elem_of_list_In, elem_of_list_bind in Hin. destruct Hin as (m & Hi & Hm).
+  apply elem_of_list_In in Hm. rewrite (quiet_MQ os m Hq Hm) in Hi. inversion Hi.
+Qed.
+
+Lemma find_free_mid_spec fuel : forall (m : Nmap N) i j, find_free_mid fuel m i = Some j -> m !! j = None.
+Proof.
+  induction fuel as [|fuel IH]; intros m i j; cbn [find_free_mid]; destruct (m !! i) eqn:E.
+  - discriminate.
+  - intros H. injection H as <-. exact E.
+  - destruct (i <=? MinPacketID); [discriminate|]. apply IH.
+  - intros H. injection H as <-. exact E.
+Qed.
+
+(* ================================================================== handle_mq *)
+
+Definition mq_ack_mid (m : mq_pkt) : option N :=
+  match m with MqPuback i | MqSuback i _ | MqPubrel i => Some i | _ => None end.
+Definition mq_ack_txn (m : mq_pkt) (t : txn) : Prop :=
+  match m, t with
+  | MqPuback _, TxClientPub1 _ _ => True
+  | MqSuback _ _, TxSubscribe _ _ => True
+  | MqPubrel _, TxBrokerPub _ _ st _ _ _ => st = AwaitPubrel
+  | _, _ => False
+  end.
+
+Lemma handle_mq_fw cfg s m :
+  match m with MqPublish _ _ _ _ _ _ => False | _ => True end ->
+  FWR X0 s (handle_mq cfg s m) \/
+  exists mid g t, mq_ack_mid m = Some mid /\ get_by_id s mid = Some (g, t) /\ mq_ack_txn m t /\
+                  FWR (Xobj g) s (handle_mq cfg s m).
+Proof.
+  intros Hm. unfold handle_mq. pose proof (FW_refl X0 s) as H0.
+  destruct m; try contradiction; try (left; apply FW_refl).
+  - (* Connack *)
+    left. destruct (get_connect s) as [[[g mq] a]|] eqn:Eg; [|apply FW_refl].
+    apply get_connect_spec in Eg. destruct Eg as [Ec Eo].
+    assert (Hfin : forall s1, FW X0 s s1 -> gw_objs s1 = gw_objs s -> FWR X0 s (ok (finish_obj s1 g) [])).
+    { intros s1 H1 E. apply FWR_ok. eapply FW_step; [exact H1|]. apply FW_finish_cx.
+      intros _ t Ht. rewrite E, Eo in Ht. injection Ht as <-. exact I. }
+    assert (Hfin2 : forall s1, FW X0 s s1 -> gw_objs s1 = gw_objs s -> FWR X0 s (stop (finish_obj s1 g) [] EcConnectFailed)).
+    { intros s1 H1 E. apply (Hfin s1 H1 E). }
+    destruct (negb (cx_state_eqb a CxConnack)); [apply FW_refl|].
+    destruct (negb (rc =? 0)).
+    + unfold sn_send, sn_send_owned.
+      destruct (gw_st s); try destruct (len (pack (Connack RC_CONGESTION)) <=? MaxPacketLen);
+        cbn [andthen ok stop]; try (apply Hfin2; [exact H0|reflexivity]); try apply FW_refl.
+      all: apply Hfin2; [fw_auto|reflexivity].
+    + unfold sn_send, sn_send_owned. cbn [gw_st set].
+      match goal with |- context [len (pack ?p) <=? MaxPacketLen] => destruct (len (pack p) <=? MaxPacketLen) end;
+        cbn [andthen ok stop]; try (apply Hfin; [fw_auto|reflexivity]).
+      apply FWR_stop. fw_auto.
+  - (* Puback *)
+    destruct (get_by_id s mid) as [[g t]|] eqn:Eg; [|left; apply FW_refl].
+    destruct t as [mq a|m0 tid0|m0 tid0|m0 q st d sp n]; try (left; apply FW_refl).
+    right. exists mid, g, (TxClientPub1 m0 tid0). split; [reflexivity|]. split; [exact Eg|]. split; [exact I|].
+    apply FWR_sn_send, FW_finish_obj.
+  - (* Pubrec *) left. fw_auto.
+  - (* Pubrel *)
+    destruct (get_by_id s mid) as [[g t]|] eqn:Eg; [|left; apply FW_refl].
+    destruct t as [mq a|m0 tid0|m0 tid0|m0 q st d sp n]; try (left; apply FW_refl).
+    destruct q as [|[[|[]|]|[]|]]; try (left; apply FW_refl).
+    pose proof (get_by_id_held _ _ _ _ Eg) as [_ Ho].
+    destruct st; cbn [bp_state_eqb negb]; try (left; apply FW_refl).
+    right. exists mid, g, (TxBrokerPub m0 2 AwaitPubrel d sp n).
+    split; [reflexivity|]. split; [exact Eg|]. split; [reflexivity|].
+    eapply bp_proceed_fw. exact Ho.
+  - (* Pubcomp *) left. fw_auto.
+  - (* Suback *)
+    destruct (get_by_id s mid) as [[g t]|] eqn:Eg; [|left; apply FW_refl].
+    destruct t as [mq a|m0 tid0|m0 tid0|m0 q st d sp n]; try (left; apply FW_refl).
+    right. exists mid, g, (TxSubscribe m0 tid0). split; [reflexivity|]. split; [exact Eg|]. split; [exact I|].
+    pose proof (FW_finish_obj s g) as Hf.
+    destruct codes as [|c [|c2 codes]]; [apply FWR_stop, Hf| |apply FWR_stop, Hf].
+    cbv zeta. destruct (c <=? 2); apply FWR_sn_send; [|exact Hf].
+    destruct (gw_registered (finish_obj s g) !! tid0); [|exact Hf].
+    eapply FW_step; [exact Hf|]. apply FW_sm. unfold note_handed. sm_tac.
+  - (* Unsuback *) left. fw_auto.
+  - (* Pingresp *) left. fw_auto.
+Qed.
+
+(* ================================================================== the broker's PUBLISH *)
+
+Lemma SN_nil_one_err t dg : (forall p, read_dgram dg <> Ok p) -> SN [OutSn t dg] = [].
+Proof. intros H. rewrite SN_cons_sn. destruct (read_dgram dg) as [p| |]; [exfalso; eapply H; reflexivity|reflexivity..]. Qed.
+
+Lemma SN_register t i mid topic :
+  len (pack (Register i mid topic)) <= MaxPacketLen ->
+  forall p, In p (SN [OutSn t (pack (Register i mid topic))]) -> exists a b c, p = Register a b c.
+Proof.
+  intros Hlen p Hin. rewrite SN_cons_sn in Hin. destruct topic as [|x nm].
+  - rewrite read_register_empty in Hin. destruct Hin.
+  - rewrite (read_register_ok i mid x nm Hlen) in Hin. cbn in Hin. destruct Hin as [<-|[]]. eauto.
+Qed.
+
+Lemma SN_publish t dup q r tit ti mi d :
+  len (pack (Publish dup q r tit ti mi d)) <= MaxPacketLen ->
+  SN [OutSn t (pack (Publish dup q r tit ti mi d))] =
+  [Publish dup (q mod 4) r (tit mod 4) (ti mod 65536) (mi mod 65536) d].
+Proof. intros Hlen. rewrite SN_cons_sn, (read_publish dup q r tit ti mi d Hlen). reflexivity. Qed.
+
+Definition Xpub (mid0 qos : N) : N -> N -> Prop := fun i _ => i = mid0 /\ (qos = 1 \/ qos = 2).
+
+Lemma handle_broker_publish_spec cfg s dup qos retain topic mid0 payload :
+  qos < 4 -> mid0 < 65536 ->
+  FWR (Xpub mid0 qos) s (handle_broker_publish cfg s dup qos retain topic mid0 payload) /\
+  forall dup' q r' tit tid i pl,
+    In (Publish dup' q r' tit tid i pl) (SN (outs_of (handle_broker_publish cfg s dup qos retain topic mid0 payload))) ->
+    q = 1 \/ q = 2 ->
+    BP cfg (st_of (handle_broker_publish cfg s dup qos retain topic mid0 payload)) i q
+       (gw_now s + (retry_count cfg + 1) * retry_delay cfg).
+Proof.
+  intros Hq Hmid. unfold handle_broker_publish.
+  destruct (if is_short_topic topic then _ else _) as [[tid tit]|]; cbv beta iota zeta.
+  - (* a known topic *)
+    cbn [negb]. rewrite andb_true_r.
+    destruct (N.eqb_spec qos 0) as [->|Hq0].
+    + split; [apply FWR_sn_send, FW_refl|].
+      intros dup' q r' tit' tid' i pl Hin Hq12. exfalso.
+      unfold sn_send, sn_send_owned in Hin.
+      destruct (gw_st s); try (cbn in Hin; contradiction);
+        (destruct (len (pack (Publish dup 0 retain tit tid mid0 payload)) <=? MaxPacketLen) eqn:El;
+         [|cbn in Hin; contradiction]);
+        cbn [outs_of ok fst snd] in Hin; apply N.leb_le in El; rewrite (SN_publish _ _ _ _ _ _ _ _ El) in Hin;
+        destruct Hin as [Hin|[]]; injection Hin as _ <- _ _ _ _ _; cbn in Hq12; lia.
+    + destruct (2 <? qos) eqn:Hq2; [split; [apply FW_refl|intros ? ? ? ? ? ? ? []]|]. apply N.ltb_ge in Hq2.
+      assert (Hq12 : qos = 1 \/ qos = 2) by lia.
+      set (pub := Publish dup qos retain tit tid mid0 payload).
+      set (st := if qos =? 1 then AwaitPuback else AwaitPubrec).
+      set (t0 := TxBrokerPub mid0 qos st (RsSn pub) None 0).
+      change (new_obj s t0) with (fst (new_obj s t0), gw_next_obj s). cbv beta iota zeta.
+      set (g := gw_next_obj s).
+      set (sa := fst (new_obj s t0) <| gw_by_id := <[mid0 := g]> (gw_by_id (fst (new_obj s t0))) |>).
+      assert (Hobj : gw_objs sa !! g = Some t0) by (subst sa g; unfold new_obj; cbn; apply lookup_insert).
+      assert (Hslot : gw_by_id sa !! mid0 = Some g) by (subst sa; cbn; apply lookup_insert).
+      assert (Ha : FW (Xslot mid0) s sa).
+      { subst sa. eapply FW_trans; [apply (FW_new_obj (Xslot mid0) s t0 I)|].
+        apply FW_slot_insert. intros _. unfold new_obj. cbn. split; [subst g; lia|].
+        intros t' H. subst g. rewrite lookup_insert in H. injection H as <-. reflexivity. }
+      split.
+      * unfold FWR. eapply FW_mono.
+        -- eapply FW_trans; [exact Ha|]. eapply FW_mono; [apply (bp_proceed_fw cfg sa g mid0 qos st (RsSn pub) None 0); exact Hobj|].
+           intros HW i g' t [H1 H2] Hx. unfold Xobj in Hx. subst g'. unfold Xslot.
+           pose proof (proj2 (w_slot sa HW i g H1) _ Hobj) as Hm. cbn in Hm. congruence.
+        -- intros _ i g' t _ Hx. unfold Xslot in Hx. split; assumption.
+      * intros dup' q r' tit' tid' i pl Hin Hq'.
+        assert (Hst : st <> BpDone) by (subst st; destruct (qos =? 1); discriminate).
+        destruct (bp_proceed_outs cfg sa g mid0 qos st pub None Hst) as [E|[E El]]; rewrite E in Hin; [destruct Hin|].
+        subst pub. rewrite (SN_publish _ _ _ _ _ _ _ _ El) in Hin. destruct Hin as [Hin|[]].
+        injection Hin as _ <- _ _ _ <- _.
+        rewrite (N.mod_small qos 4 Hq), (N.mod_small mid0 65536 Hmid).
+        change (gw_now s) with (gw_now sa). subst st. fold (bst qos).
+        apply bp_proceed_BP; [exact Hslot|]. rewrite pack_set_dup_len. exact El.
+  - (* a new topic name *)
+    cbn [negb]. rewrite andb_false_r.
+    destruct (if qos =? 0 then _ else _) as [mid|] eqn:Emid; [|split; [apply FW_refl|intros ? ? ? ? ? ? ? []]].
+    destruct (2 <? qos) eqn:Hq2; [split; [apply FW_refl|intros ? ? ? ? ? ? ? []]|]. apply N.ltb_ge in Hq2.
+    pose proof (new_topic_id_sm cfg s) as Hsm. pose proof (new_topic_id_now cfg s) as Hnow.
+    destruct (new_topic_id cfg s) as [s1 [i|]]; cbn [fst] in Hsm, Hnow;
+      [|split; [apply FWR_stop, FW_sm, Hsm|intros ? ? ? ? ? ? ? []]].
+    set (pub := Publish dup qos retain 0 i mid0 payload).
+    set (reg := Register i mid topic).
+    set (t0 := TxBrokerPub mid qos AwaitRegack (RsSn reg) (Some pub) 0).
+    change (new_obj s1 t0) with (fst (new_obj s1 t0), gw_next_obj s1). cbv beta iota zeta.
+    set (g := gw_next_obj s1).
+    set (sa := note_handed (fst (new_obj s1 t0) <| gw_by_id := <[mid := g]> (gw_by_id (fst (new_obj s1 t0))) |>) i topic).
+    assert (Hobj : gw_objs sa !! g = Some t0) by (subst sa g; unfold new_obj, note_handed; cbn; apply lookup_insert).
+    assert (Hok : okB t0).
+    { subst t0 pub. cbn. split; [reflexivity|]. split; [exact Hq|]. split; [exact Hmid|].
+      destruct (N.eqb_spec qos 0) as [E|E]; [left; exact E|right]. injection Emid as <-. reflexivity. }
+    assert (Ha : FW (Xslot mid) s sa).
+    { subst sa. eapply FW_trans; [apply FW_sm, Hsm|].
+      eapply FW_trans; [apply (FW_new_obj (Xslot mid) s1 t0 Hok)|].
+      apply (FW_step _ _ (fst (new_obj s1 t0) <| gw_by_id := <[mid := g]> (gw_by_id (fst (new_obj s1 t0))) |>));
+        [|apply FW_sm; unfold note_handed; sm_tac].
+      apply FW_slot_insert. intros _. unfold new_obj. cbn. split; [subst g; lia|].
+      intros t' H. subst g. rewrite lookup_insert in H. injection H as <-. reflexivity. }
+    split.
+    + unfold FWR. eapply FW_mono.
+      * eapply FW_trans; [exact Ha|]. eapply FW_mono; [apply (bp_proceed_fw cfg sa g mid qos AwaitRegack (RsSn reg) (Some pub) 0); exact Hobj|].
+        intros HW j g' t [H1 H2] Hx. unfold Xobj in Hx. subst g'. unfold Xslot.
+        pose proof (proj2 (w_slot sa HW j g H1) _ Hobj) as Hm. cbn in Hm. congruence.
+      * intros HW j g' t [H1 _] Hx. unfold Xslot in Hx. subst j. unfold Xpub.
+        destruct (N.eqb_spec qos 0) as [E|E].
+        -- exfalso. apply find_free_mid_spec in Emid. congruence.
+        -- injection Emid as <-. split; [reflexivity|lia].
+    + intros dup' q r' tit' tid' j pl Hin Hq'. exfalso.
+      assert (Hst : AwaitRegack <> BpDone) by discriminate.
+      destruct (bp_proceed_outs cfg sa g mid qos AwaitRegack reg (Some pub) Hst) as [E|[E El]]; rewrite E in Hin; [destruct Hin|].
+      subst reg. destruct (SN_register _ _ _ _ El _ Hin) as (a & b & c & Ep). discriminate Ep.
+Qed.
+
+(* ================================================================== the client's REGACK: first transmission *)
+
+Lemma bp_proceed_outs_gen cfg s g mid qos st pub snpub :
+  outs_of (bp_proceed cfg s g mid qos st (RsSn pub) snpub) = [] \/
+  (outs_of (bp_proceed cfg s g mid qos st (RsSn pub) snpub) = [OutSn (gw_now s) (pack pub)] /\
+   len (pack pub) <= MaxPacketLen).
+Proof.
+  destruct st; try (apply bp_proceed_outs; discriminate).
+  unfold bp_proceed. cbv zeta.
+  match goal with |- context [sn_send_owned ?S ?o ?p] => set (s2 := S) end.
+  unfold sn_send_owned. destruct (gw_st s2); try (left; reflexivity);
+    (destruct (len (pack pub) <=? MaxPacketLen) eqn:E; [right; split; [reflexivity|apply N.leb_le, E]|left; reflexivity]).
+Qed.
+
+Lemma handle_sn_regack_BP cfg s rtid rmid rrc :
+  W s ->
+  forall a1 a2 a3 a4 a5 i a7,
+    In (Publish a1 a2 a3 a4 a5 i a7) (SN (outs_of (handle_sn cfg s (Regack rtid rmid rrc)))) ->
+    a2 = 1 \/ a2 = 2 ->
+    BP cfg (st_of (handle_sn cfg s (Regack rtid rmid rrc))) i a2 (gw_now s + (retry_count cfg + 1) * retry_delay cfg).
+Proof.
+  intros HW a1 a2 a3 a4 a5 i a7. unfold handle_sn.
+  destruct (negb (packet_legal cfg s (Regack rtid rmid rrc))); [intros []|].
+  destruct (get_by_id s rmid) as [[g t]|] eqn:Eg; [|intros []].
+  destruct t as [mq a|m0 tid0|m0 tid0|m oq st d sp n]; try (intros []).
+  pose proof (get_by_id_held _ _ _ _ Eg) as Hh. pose proof (W_held_mid _ _ _ _ HW Hh) as Hm. cbn in Hm.
+  injection Hm as ->. pose proof (w_ok s HW g _ (proj2 Hh)) as Hok.
+  unfold bp_regack.
+  destruct st; try (intros []). destruct d as [p|k m]; [|intros []]. destruct_pkt p; try (intros []).
+  rename tid into rt, mid into rm, name into rn.
+  destruct sp as [pub|]; [|intros []].
+  destruct (negb (rrc =? RC_ACCEPTED)); [intros []|]. cbv zeta.
+  set (s1 := s <| gw_registered := <[rt := rn]> (gw_registered s) |>).
+  destruct_pkt pub; try contradiction. cbn in Hok. destruct Hok as (-> & Hq4 & Hm0 & Hqm).
+  match goal with |- context [bp_proceed cfg s1 g rmid oq ?ST (RsSn ?P) ?SP] => set (st' := ST); set (pub := P) end.
+  intros Hin Hq12.
+  destruct (bp_proceed_outs_gen cfg s1 g rmid oq st' pub (Some pub)) as [E|[E El]]; rewrite E in Hin; [destruct Hin|].
+  subst pub. rewrite (SN_publish _ _ _ _ _ _ _ _ El) in Hin. destruct Hin as [Hin|[]].
+  injection Hin as _ <- _ _ _ <- _.
+  rewrite (N.mod_small oq 4 Hq4), (N.mod_small mid 65536 Hm0) in *.
+  assert (Hmm : mid = rmid) by (destruct Hqm as [Hz|Hz]; [lia|exact Hz]). subst mid.
+  assert (Hst : st' = bst oq).
+  { subst st'. unfold bst. destruct (N.eqb_spec oq 0) as [Hz|_]; [lia|reflexivity]. }
+  rewrite Hst. change (gw_now s) with (gw_now s1).
+  apply bp_proceed_BP; [exact (proj1 Hh)|]. rewrite pack_set_dup_len. exact El.
+Qed.
+
+(* ================================================================== the broker's PUBACK / SUBACK are relayed *)
+
+Lemma handle_mq_puback_relay cfg s i u :
+  W s -> gw_st s <> Asleep -> i < 65536 -> CP s i u ->
+  exists tid, SN (outs_of (handle_mq cfg s (MqPuback i))) = [Puback tid i RC_ACCEPTED].
+Proof.
+  intros HW Hst Hi (g & tid & Hh & _). cbn [handle_mq]. rewrite (held_get_by_id _ _ _ _ Hh).
+  pose proof (w_ok s HW g _ (proj2 Hh)) as Htid. cbn in Htid.
+  assert (Hwf : wf_pkt (Puback tid i RC_ACCEPTED) = true).
+  { cbn [wf_pkt]. unfold lt16, lt8. apply N.ltb_lt in Htid, Hi. rewrite Htid, Hi. reflexivity. }
+  rewrite sn_send_awake; [|rewrite finish_obj_st; exact Hst|exact Hwf].
+  exists tid. cbn [outs_of ok fst snd]. apply SN_one_pack, Hwf.
+Qed.
+
+Lemma handle_mq_suback_relay cfg s i u c :
+  Sound_C01C03_aux.Inv s -> gw_st s <> Asleep -> i < 65536 -> CS s i u ->
+  exists q tid rc, SN (outs_of (handle_mq cfg s (MqSuback i [c]))) = [Suback q tid i rc].
+Proof.
+  intros HI Hst Hi (g & tid & Hh & _). cbn [handle_mq]. rewrite (held_get_by_id _ _ _ _ Hh).
+  pose proof (Inv_objs s g _ HI (proj2 Hh)) as Htid. cbn in Htid. cbv zeta.
+  assert (Hst' : gw_st (finish_obj s g) <> Asleep) by (rewrite finish_obj_st; exact Hst).
+  destruct (c <=? 2) eqn:Ec.
+  - apply N.leb_le in Ec.
+    assert (Hwf : wf_pkt (Suback c tid i RC_ACCEPTED) = true) by (apply wf_pkt_suback; [lia|exact Htid|exact Hi|reflexivity]).
+    exists c, tid, RC_ACCEPTED.
+    destruct (gw_registered (finish_obj s g) !! tid);
+      (rewrite sn_send_awake; [|exact Hst'|exact Hwf]); cbn [outs_of ok fst snd]; apply SN_one_pack, Hwf.
+  - assert (Hwf : wf_pkt (Suback 0 tid i RC_NOT_SUPPORTED) = true) by (apply wf_pkt_suback; [lia|exact Htid|exact Hi|reflexivity]).
+    exists 0, tid, RC_NOT_SUPPORTED.
+    rewrite sn_send_awake; [|exact Hst'|exact Hwf]. cbn [outs_of ok fst snd]. apply SN_one_pack, Hwf.
+Qed.
+
+(* ================================================================== timers firing *)
+
+Definition Xtm (k : timer_kind) : N -> N -> Prop := fun _ g => timer_of_obj g k = true.
+
+Lemma fire_fw cfg s k : FWR (Xtm k) s (fire cfg s k).
+Proof.
+  unfold fire. destruct k as [g|g|g|p|p].
+  - destruct (gw_objs s !! g); [|apply FW_refl]. apply FWR_stop.
+    eapply FW_mono; [apply FW_finish_obj|]. intros _ i g' t' _ ->. unfold Xtm. cbn. apply N.eqb_refl.
+  - destruct (gw_objs s !! g); [|apply FW_refl]. apply FWR_ok.
+    eapply FW_mono; [apply FW_finish_obj|]. intros _ i g' t' _ ->. unfold Xtm. cbn. apply N.eqb_refl.
+  - assert (Hmono : forall r, FWR (Xobj g) s r -> FWR (Xtm (TmRetry g)) s r).
+    { intros r Hr. unfold FWR. eapply FW_mono; [exact Hr|]. intros _ i g' t' _ ->. unfold Xtm. cbn. apply N.eqb_refl. }
+    destruct (gw_objs s !! g) as [t|] eqn:Ho; [|apply FW_refl].
+    destruct t as [mq a|m0 tid0|m0 tid0|mid qos st data snpub n]; try apply FW_refl.
+    apply Hmono.
+    destruct (retry_count cfg <? n + 1); [apply FWR_ok, FW_finish_obj|]. cbv zeta.
+    match goal with |- context [set_obj s g ?T] => set (t1 := T) end.
+    assert (H1 : FW (Xobj g) s (set_obj s g t1)).
+    { apply FW_set_obj. intros HW. split; [eapply w_obj; eassumption|]. split; [|split].
+      - exact (w_ok s HW g _ Ho).
+      - intros i Hi. exact (proj2 (w_slot s HW i g Hi) _ Ho).
+      - intros Hc. exact (proj2 (w_cx s HW g Hc) _ Ho). }
+    match goal with |- context [arm ?S (TmRetry g) (retry_delay cfg)] => set (s2 := S) end.
+    assert (H2 : FW (Xobj g) s s2).
+    { subst s2. destruct data; [|exact H1]. eapply FW_step; [exact H1|]. apply FW_sm. sm_tac. }
+    assert (H3 : FW (Xobj g) s (arm s2 (TmRetry g) (retry_delay cfg))).
+    { eapply FW_trans; [exact H2|]. eapply FW_mono; [apply FW_arm|].
+      - intros HW g' Hg'. cbn in Hg'. apply N.eqb_eq in Hg'. subst g'.
+        apply (w_obj _ HW g t1). subst s2. destruct data; cbn; apply lookup_insert.
+      - intros _ i g' t' _ Hx. cbn in Hx. apply N.eqb_eq in Hx. exact Hx. }
+    destruct data as [p|k m]; [|apply FWR_mq_send, H3].
+    pose proof (FWR_sn_send_owned (Xobj g) s _ (Some g) (set_dup p) H3) as Hs.
+    destruct (sn_send_owned (arm s2 (TmRetry g) (retry_delay cfg)) (Some g) (set_dup p)) as [[s4 o] [|c]]; [exact Hs|].
+    apply FWR_ok. eapply FW_trans; [exact Hs|apply FW_finish_obj].
+  - apply FWR_andthen; [apply FWR_mq_send, FW_refl|]. intros s1 H1. apply FWR_ok.
+    eapply FW_step; [exact H1|apply FW_arm_ping].
+  - apply FWR_ok, FW_disarm_ping.
+Qed.
+
+(* the state in which the due timer tm fires *)
+Definition pre (s : gw_state) (tm : timer) : gw_state :=
+  s <| gw_now := tm_at tm |> <| gw_timers := remove_timer (gw_timers s) tm |>.
+
+Lemma pre_fw X s tm : FW X s (pre s tm).
+Proof.
+  apply FW_timers_sub; try reflexivity. intros u Hin. cbn in Hin. unfold remove_timer in Hin.
+  apply filter_In in Hin. tauto.
+Qed.
+
+Lemma min_timer_in (l : list timer) (tm : timer) : min_timer l = Some tm -> In tm l.
+Proof.
+  revert tm. induction l as [|a l IH]; cbn [min_timer]; intros tm H; [discriminate|].
+  destruct (min_timer l) as [u|].
+  - destruct (earlier a u); injection H as <-; [left; reflexivity|right; apply IH; reflexivity].
+  - injection H as <-. left. reflexivity.
+Qed.
+
+Lemma begin_end_fw X s c a b : FW X s (fst (begin_end s c a b)).
+Proof. apply FW_timers_sub; try reflexivity. intros tm []. Qed.
+
+Lemma begin_end_FR X s c a b : FR X s (fst (begin_end s c a b)).
+Proof. intros i g t Hh _. split; [exact Hh|]. intros tm []. Qed.
+
+Lemma finish_r_fw X s r a b : FWR X s r -> FW X s (fst (finish_r r a b)).
+Proof.
+  intros H. destruct r as [[s1 o] [|c]]; unfold FWR, st_of in H; cbn [finish_r fst] in *; [exact H|].
+  pose proof (begin_end_fw X0 s1 c a b) as Hb. destruct (begin_end s1 c a b) as [s2 o2]. cbn [fst] in *.
+  eapply FW_step; eassumption.
+Qed.
+
+(* the retransmission of a broker PUBLISH exchange that has retries left *)
+Lemma fire_retry_BP cfg s g i q u d sp n :
+  held s i g (TxBrokerPub i q (bst q) d sp n) -> resend_ok d ->
+  (forall tm, In tm (gw_timers s) -> timer_of_obj g (tm_kind tm) = false) ->
+  u <= gw_now s + (retry_count cfg - n) * retry_delay cfg -> gw_now s < u ->
+  BP cfg (st_of (fire cfg s (TmRetry g))) i q u.
+Proof.
+  intros [Hs Ho] Hd Hnt Hu Hlt. unfold fire. rewrite Ho.
+  assert (Hn : n < retry_count cfg).
+  { destruct (N.lt_ge_cases n (retry_count cfg)) as [H|H]; [exact H|].
+    assert (E : retry_count cfg - n = 0) by lia. rewrite E in Hu. lia. }
+  destruct (retry_count cfg <? n + 1) eqn:En; [apply N.ltb_lt in En; lia|]. cbv zeta.
+  assert (Hb : u <= gw_now s + retry_delay cfg + (retry_count cfg - (n + 1)) * retry_delay cfg).
+  { assert (E : retry_count cfg - n = (retry_count cfg - (n + 1)) + 1) by lia. rewrite E in Hu. lia. }
+  assert (HB : forall S d', resend_ok d' -> gw_by_id S = gw_by_id s ->
+            gw_objs S = <[g := TxBrokerPub i q (bst q) d' sp (n + 1)]> (gw_objs s) ->
+            gw_timers S = gw_timers s ++ [{| tm_at := gw_now s + retry_delay cfg; tm_seq := gw_next_seq s; tm_kind := TmRetry g |}] ->
+            BP cfg S i q u).
+  { intros S d' Hd' E1 E2 E3. exists g, d', sp, (n + 1), (gw_next_seq s), (gw_now s + retry_delay cfg).
+    split; [|split; [exact Hd'|split; [|exact Hb]]].
+    - split; [rewrite E1; exact Hs|rewrite E2; apply lookup_insert].
+    - intros tm Hin Hof. rewrite E3 in Hin. apply in_app_or in Hin. destruct Hin as [Hin|[<-|[]]].
+      + rewrite (Hnt tm Hin) in Hof. discriminate Hof.
+      + cbn. auto. }
+  destruct d as [p|k m].
+  - cbn [resend_ok] in Hd.
+    assert (Hd' : resend_ok (RsSn (set_dup p))) by (cbn [resend_ok]; rewrite set_dup_idem; exact Hd).
+    unfold sn_send_owned. apply N.leb_le in Hd.
+    match goal with |- context [gw_st ?S] => destruct (gw_st S) end; rewrite ?Hd; unfold st_of, ok; cbn [fst];
+      apply (HB _ _ Hd'); reflexivity.
+  - unfold st_of, mq_send, ok. cbn [fst]. apply (HB _ (RsAck k m) I); reflexivity.
+Qed.
+
+Lemma remove_timer_same_seq l tm u :
+  In u (remove_timer l tm) -> tm_seq u <> tm_seq tm.
+Proof.
+  unfold remove_timer. intros Hin. apply filter_In in Hin. destruct Hin as [_ H].
+  apply negb_true_iff, N.eqb_neq in H. exact H.
+Qed.
+
+(* one due timer fires: exchanges that outlive the target time t survive *)
+Lemma fire_one cfg s tm t :
+  W s -> In tm (gw_timers s) -> tm_at tm <= t ->
+  W (fst (finish_r (fire cfg (pre s tm) (tm_kind tm)) false false)) /\
+  (forall i u, t < u -> CP s i u -> CP (fst (finish_r (fire cfg (pre s tm) (tm_kind tm)) false false)) i u) /\
+  (forall i u, t < u -> CS s i u -> CS (fst (finish_r (fire cfg (pre s tm) (tm_kind tm)) false false)) i u) /\
+  (forall i q u, t < u -> BP cfg s i q u -> BP cfg (fst (finish_r (fire cfg (pre s tm) (tm_kind tm)) false false)) i q u).
+Proof.
+  intros HW Hin Hdue.
+  pose proof (pre_fw X0 s tm HW) as [HWp HFp].
+  pose proof (finish_r_fw _ _ _ false false (fire_fw cfg (pre s tm) (tm_kind tm)) HWp) as [HW1 HF1].
+  split; [exact HW1|]. split; [|split].
+  - intros i u Hu HC. assert (HCp : CP (pre s tm) i u) by (eapply CP_FR; [exact HFp|exact HC|intros g _ []]).
+    eapply CP_FR; [exact HF1|exact HCp|]. intros g Hg Hx. unfold Xtm in Hx.
+    destruct HC as (g0 & tid & [Hs0 _] & Htm). change (gw_by_id (pre s tm)) with (gw_by_id s) in Hg.
+    assert (g0 = g) by congruence. subst g0. specialize (Htm tm Hin Hx). lia.
+  - intros i u Hu HC. assert (HCp : CS (pre s tm) i u) by (eapply CS_FR; [exact HFp|exact HC|intros g _ []]).
+    eapply CS_FR; [exact HF1|exact HCp|]. intros g Hg Hx. unfold Xtm in Hx.
+    destruct HC as (g0 & tid & [Hs0 _] & Htm). change (gw_by_id (pre s tm)) with (gw_by_id s) in Hg.
+    assert (g0 = g) by congruence. subst g0. specialize (Htm tm Hin Hx). lia.
+  - intros i q u Hu HB. assert (HBp : BP cfg (pre s tm) i q u) by (eapply BP_FR; [exact HFp|exact HB|intros g _ []]).
+    destruct HB as (g & d & sp & n & sq & T & Hh & Hd & Htm & Hb).
+    destruct (timer_of_obj g (tm_kind tm)) eqn:Hof.
+    + (* the exchange's own retry timer *)
+      destruct (Htm tm Hin Hof) as (Hsq & HT & Hk). rewrite Hk.
+      assert (HBf : BP cfg (st_of (fire cfg (pre s tm) (TmRetry g))) i q u).
+      { apply (fire_retry_BP cfg (pre s tm) g i q u d sp n).
+        - exact Hh.
+        - exact Hd.
+        - intros v Hv. destruct (timer_of_obj g (tm_kind v)) eqn:Hov; [|reflexivity]. exfalso.
+          cbn in Hv. pose proof (remove_timer_same_seq _ _ _ Hv) as Hne.
+          assert (Hv' : In v (gw_timers s)) by (unfold remove_timer in Hv; apply filter_In in Hv; tauto).
+          destruct (Htm v Hv' Hov) as (Hsv & _ & _). congruence.
+        - cbn. lia.
+        - cbn. lia. }
+      destruct (fire cfg (pre s tm) (TmRetry g)) as [[s1 o] [|c]]; unfold st_of in HBf; cbn [finish_r fst] in *; [exact HBf|].
+      pose proof (begin_end_FR X0 s1 c false false) as Hbe. destruct (begin_end s1 c false false) as [s2 o2]. cbn [fst] in *.
+      eapply BP_FR; [exact Hbe|exact HBf|intros g' _ []].
+    + eapply BP_FR; [exact HF1|exact HBp|]. intros g' Hg' Hx. unfold Xtm in Hx.
+      change (gw_by_id (pre s tm)) with (gw_by_id s) in Hg'. assert (g' = g) by (destruct Hh; congruence). subst g'. congruence.
+Qed.
+
+(* ================================================================== all due timers *)
+
+Definition EPres (cfg : gw_cfg) (t : N) (s s' : gw_state) : Prop :=
+  W s' /\ (forall i u, t < u -> CP s i u -> CP s' i u) /\ (forall i u, t < u -> CS s i u -> CS s' i u) /\
+  (forall i q u, t < u -> BP cfg s i q u -> BP cfg s' i q u).
+
+Lemma EPres_trans cfg t s1 s2 s3 : EPres cfg t s1 s2 -> EPres cfg t s2 s3 -> EPres cfg t s1 s3.
+Proof.
+  intros (_ & A1 & A2 & A3) (B0 & B1 & B2 & B3). split; [exact B0|]. split; [|split].
+  - intros i u Hu H. apply B1; [exact Hu|]. apply A1; assumption.
+  - intros i u Hu H. apply B2; [exact Hu|]. apply A2; assumption.
+  - intros i q u Hu H. apply B3; [exact Hu|]. apply A3; assumption.
+Qed.
+
+Lemma EPres_FW cfg t s s' : W s -> FW X0 s s' -> EPres cfg t s s'.
+Proof.
+  intros HW H. destruct (H HW) as [HW' HF]. split; [exact HW'|]. split; [|split].
+  - intros i u _ HC. eapply CP_FR; [exact HF|exact HC|intros g _ []].
+  - intros i u _ HC. eapply CS_FR; [exact HF|exact HC|intros g _ []].
+  - intros i q u _ HC. eapply BP_FR; [exact HF|exact HC|intros g _ []].
+Qed.
+
+Lemma run_timers_pres cfg t fuel : forall s, W s -> EPres cfg t s (fst (run_timers fuel cfg s t)).
+Proof.
+  induction fuel as [|fuel IH]; intros s HW; cbn [run_timers].
+  - apply EPres_FW; [exact HW|apply FW_refl].
+  - destruct (gw_ending s) as [te|].
+    + destruct (te <=? t); cbn [fst]; apply EPres_FW; try exact HW; [apply FW_sm; sm_tac|apply FW_refl].
+    + destruct (min_timer (gw_timers s)) as [tm|] eqn:Em; [|apply EPres_FW; [exact HW|apply FW_refl]].
+      destruct (tm_at tm <=? t) eqn:Ed; [|apply EPres_FW; [exact HW|apply FW_refl]].
+      apply N.leb_le in Ed. apply min_timer_in in Em.
+      pose proof (fire_one cfg s tm t HW Em Ed) as H1. fold (pre s tm).
+      destruct (finish_r (fire cfg (pre s tm) (tm_kind tm)) false false) as [s1 o1]. cbn [fst] in H1.
+      specialize (IH s1 (proj1 H1)). destruct (run_timers fuel cfg s1 t) as [s2 o2]. cbn [fst] in *.
+      eapply EPres_trans; [exact H1|exact IH].
+Qed.
+
+(* ================================================================== the session stays connected *)
+
+Definition ND (s : gw_state) : Prop := gw_st s <> Disconnected.
+Definition NDR (r : R) : Prop := match r with (s', _, HOk) => ND s' | _ => True end.
+
+Lemma ND_same s s' : gw_st s' = gw_st s -> ND s -> ND s'.
+Proof. unfold ND. intros ->. tauto. Qed.
+
+Lemma NDR_ok s o : ND s -> NDR (ok s o).
+Proof. intros H; exact H. Qed.
+Lemma NDR_stop s o c : NDR (stop s o c).
+Proof. exact I. Qed.
+Lemma NDR_mq_send s m : ND s -> NDR (mq_send s m).
+Proof. intros H; exact H. Qed.
+Lemma NDR_sn_send_owned s ow p : ND s -> NDR (sn_send_owned s ow p).
+Proof.
+  intros H. unfold sn_send_owned. destruct (gw_st s) eqn:E; try destruct (len (pack p) <=? MaxPacketLen);
+    cbn; try exact H; try exact I.
+Qed.
+Lemma NDR_sn_send s p : ND s -> NDR (sn_send s p).
+Proof. apply NDR_sn_send_owned. Qed.
+Lemma NDR_sn_send_now s p : ND s -> NDR (sn_send_now s p).
+Proof. intros H. unfold sn_send_now. destruct (len (pack p) <=? MaxPacketLen); [exact H|exact I]. Qed.
+Lemma NDR_andthen r g : NDR r -> (forall s, ND s -> NDR (g s)) -> NDR (andthen r g).
+Proof.
+  intros Hr Hg. destruct r as [[s o] [|c]]; cbn [andthen NDR] in *; [|exact I].
+  specialize (Hg s Hr). destruct (g s) as [[s' o'] res]. exact Hg.
+Qed.
+Lemma NDR_send_all ps : forall s, ND s -> NDR (send_all s ps).
+Proof.
+  induction ps as [|[o p] ps IH]; intros s H; cbn [send_all]; [exact H|].
+  apply NDR_andthen; [apply NDR_sn_send, H|intros s' H'; apply IH, H'].
+Qed.
+Lemma NDR_andthen_end r g : (forall s, snd (g s) <> HOk) -> NDR (andthen r g).
+Proof.
+  intros Hg. destruct r as [[s o] [|c]]; cbn [andthen NDR]; [|exact I].
+  specialize (Hg s). destruct (g s) as [[s' o'] [|c]]; cbn in *; [congruence|exact I].
+Qed.
+Lemma andthen_end r g : (forall s, snd (g s) <> HOk) -> snd (andthen r g) <> HOk.
+Proof.
+  intros Hg. destruct r as [[s o] [|c]]; cbn [andthen snd]; [|discriminate].
+  specialize (Hg s). destruct (g s) as [[s' o'] res]. exact Hg.
+Qed.
+
+Lemma ND_finish_obj s g : ND s -> ND (finish_obj s g).
+Proof. apply ND_same, finish_obj_st. Qed.
+
+Ltac nd_st :=
+  match goal with
+  | |- ND (finish_obj _ _) => apply ND_finish_obj
+  | |- ND (set gw_st (fun _ => ?v) _) => unfold ND; cbn; discriminate
+  | |- ND (set ?p ?f ?s) => apply (ND_same s); [reflexivity|]
+  | |- ND (arm ?s _ _) => apply (ND_same s); [reflexivity|]
+  | |- ND (disarm_obj ?s _) => apply (ND_same s); [reflexivity|]
+  | |- ND (disarm_ping ?s _) => apply (ND_same s); [reflexivity|]
+  | |- ND (set_obj ?s _ _) => apply (ND_same s); [reflexivity|]
+  | |- ND (note_handed ?s _ _) => apply (ND_same s); [reflexivity|]
+  end.
+
+Ltac nd_step :=
+  first
+    [ assumption
+    | exact I
+    | apply NDR_ok | apply NDR_stop | apply NDR_sn_send | apply NDR_sn_send_owned | apply NDR_sn_send_now
+    | apply NDR_mq_send | apply NDR_send_all
+    | apply NDR_andthen; [|intros ? ?]
+    | nd_st
+    | match goal with |- NDR (match ?x with _ => _ end) => destruct x eqn:? end
+    | match goal with |- NDR (if ?x then _ else _) => destruct x eqn:? end
+    | match goal with |- ND (match ?x with _ => _ end) => destruct x eqn:? end
+    | match goal with |- ND (if ?x then _ else _) => destruct x eqn:? end
+    | progress cbv zeta ].
+Ltac nd_auto := repeat nd_step.
+
+Lemma connect_auth_done_nd' s g mq : ND s -> NDR (connect_auth_done s g mq).
+Proof. intros H. unfold connect_auth_done. nd_auto. Qed.
+
+Lemma connect_start_nd' s g mq a : ND s -> NDR (connect_start s g mq a).
+Proof. intros H. unfold connect_start. nd_auto. apply connect_auth_done_nd', H. Qed.
+
+Lemma handle_connect_nd' cfg s w c pr d cid : ND s -> NDR (handle_connect cfg s w c pr d cid).
+Proof. intros H. unfold handle_connect, new_obj. nd_auto; apply connect_start_nd'; nd_auto. Qed.
+
+Lemma connect_auth_nd' s g mq a me da : ND s -> NDR (connect_auth s g mq a me da).
+Proof. intros H. unfold connect_auth. nd_auto. apply connect_auth_done_nd'. nd_auto. Qed.
+
+Lemma handle_client_publish_nd' cfg s dup q r tit tid mid data :
+  ND s -> NDR (handle_client_publish cfg s dup q r tit tid mid data).
+Proof. intros H. unfold handle_client_publish, new_obj. nd_auto. Qed.
+
+Lemma handle_subscribe_nd' cfg s dup q tit mid tid name :
+  ND s -> NDR (handle_subscribe cfg s dup q tit mid tid name).
+Proof.
+  intros H. unfold handle_subscribe, new_obj. cbv zeta.
+  destruct ((2 <? q) || (mid =? 0)); [nd_auto|].
+  destruct (tit =? TIT_STRING); [destruct (negb (has_wildcard name))|].
+  - pose proof (register_topic_st cfg s name) as Hs.
+    destruct (register_topic cfg s name) as [s' [i|]]; cbn [fst] in Hs;
+      assert (H' : ND s') by (eapply ND_same; eassumption); nd_auto.
+  - nd_auto.
+  - nd_auto.
+Qed.
+
+Lemma handle_unsubscribe_nd' cfg s tit mid tid name : ND s -> NDR (handle_unsubscribe cfg s tit mid tid name).
+Proof. intros H. unfold handle_unsubscribe. nd_auto. Qed.
+
+Lemma bp_proceed_nd' cfg s g mid qos st data snpub : ND s -> NDR (bp_proceed cfg s g mid qos st data snpub).
+Proof. intros H. unfold bp_proceed. cbv zeta. destruct data; destruct st; nd_auto. Qed.
+
+Lemma bp_regack_nd' cfg s g t rc : ND s -> NDR (bp_regack cfg s g t rc).
+Proof. intros H. unfold bp_regack. nd_auto; apply bp_proceed_nd'; nd_auto. Qed.
+
+Lemma handle_sn_nd' cfg s p : ND s -> NDR (handle_sn cfg s p).
+Proof.
+  intros H. unfold handle_sn.
+  destruct (negb (packet_legal cfg s p)); [exact I|].
+  destruct p; try exact I.
+  - nd_auto. apply connect_auth_nd', H.
+  - apply handle_connect_nd', H.
+  - nd_auto.
+  - nd_auto.
+  - pose proof (register_topic_st cfg s name) as Hs.
+    destruct (register_topic cfg s name) as [s' [i|]]; cbn [fst] in Hs;
+      assert (H' : ND s') by (eapply ND_same; eassumption); nd_auto.
+  - nd_auto. apply bp_regack_nd', H.
+  - apply handle_client_publish_nd', H.
+  - nd_auto; apply bp_proceed_nd', H.
+  - nd_auto; apply bp_proceed_nd', H.
+  - nd_auto; apply bp_proceed_nd', H.
+  - nd_auto.
+  - apply handle_subscribe_nd', H.
+  - apply handle_unsubscribe_nd', H.
+  - nd_auto.
+  - destruct (dur =? 0).
+    + apply NDR_andthen_end. intros s1. apply andthen_end. intros s2. discriminate.
+    + nd_auto.
+Qed.
+
+Lemma handle_broker_publish_nd' cfg s dup q r t mid pl : ND s -> NDR (handle_broker_publish cfg s dup q r t mid pl).
+Proof.
+  intros H. unfold handle_broker_publish, new_obj.
+  destruct (if is_short_topic t then _ else _) as [[tid tit]|]; cbv zeta.
+  - nd_auto; apply bp_proceed_nd'; nd_auto.
+  - destruct ((q =? 0) && negb true); [nd_auto|].
+    destruct (if q =? 0 then _ else _) as [mid'|]; [|nd_auto].
+    destruct (2 <? q); [nd_auto|].
+    pose proof (new_topic_id_st cfg s) as Hs.
+    destruct (new_topic_id cfg s) as [s' [i|]]; cbn [fst] in Hs; [|nd_auto].
+    assert (H' : ND s') by (eapply ND_same; eassumption).
+    apply bp_proceed_nd'; nd_auto.
+Qed.
+
+Lemma handle_mq_nd' cfg s m : ND s -> NDR (handle_mq cfg s m).
+Proof.
+  intros H. unfold handle_mq. destruct m; try exact I; nd_auto;
+    first [apply handle_broker_publish_nd', H | apply bp_proceed_nd', H].
+Qed.
+
+Lemma fire_nd' cfg s k : ND s -> NDR (fire cfg s k).
+Proof.
+  intros H. unfold fire. destruct k as [g|g|g|p|p]; [nd_auto|nd_auto| |nd_auto|nd_auto].
+  destruct (gw_objs s !! g) as [t|]; [|exact H].
+  destruct t as [mq a|m0 tid|m0 tid|mid qos st data snpub n]; try exact H.
+  destruct (retry_count cfg <? n + 1); [nd_auto|]. cbv zeta.
+  destruct data as [p|k m]; [|nd_auto].
+  match goal with |- context [sn_send_owned ?a ?b ?c] =>
+    assert (X : NDR (sn_send_owned a b c)) by (apply NDR_sn_send_owned; nd_auto);
+    destruct (sn_send_owned a b c) as [[s1 o] [|e]] end; [exact X|exact I].
+Qed.
+
+Lemma running_false_ending s te : gw_ending s = Some te -> running s = false.
+Proof. intros H. unfold running. rewrite H. apply andb_false_r. Qed.
+
+Lemma run_timers_ending cfg t fuel s te :
+  gw_ending s = Some te -> running (fst (run_timers fuel cfg s t)) = false.
+Proof.
+  intros H. destruct fuel as [|fuel]; cbn [run_timers]; [eapply running_false_ending; exact H|].
+  rewrite H. destruct (te <=? t); cbn [fst]; [reflexivity|eapply running_false_ending; exact H].
+Qed.
+
+Lemma finish_r_nd r a b : NDR r -> running (fst (finish_r r a b)) = true -> ND (fst (finish_r r a b)).
+Proof.
+  destruct r as [[s o] [|c]]; cbn [finish_r NDR fst]; [auto|].
+  intros _ H. exfalso. unfold begin_end in H. cbn in H. unfold running in H. cbn in H.
+  rewrite andb_false_r in H. discriminate.
+Qed.
+
+Lemma run_timers_nd' cfg t fuel : forall s, ND s ->
+  running (fst (run_timers fuel cfg s t)) = true -> ND (fst (run_timers fuel cfg s t)).
+Proof.
+  induction fuel as [|fuel IH]; intros s H; cbn [run_timers]; [auto|].
+  destruct (gw_ending s) as [te|] eqn:Ee.
+  - destruct (te <=? t); cbn [fst]; [intros Hr; discriminate|auto].
+  - destruct (min_timer (gw_timers s)) as [tm|]; [|auto].
+    destruct (tm_at tm <=? t); [|auto].
+    match goal with |- context [finish_r ?r _ _] => pose proof (fire_nd' cfg (pre s tm) (tm_kind tm)) as Hf;
+      fold (pre s tm) end.
+    specialize (Hf H).
+    destruct (fire cfg (pre s tm) (tm_kind tm)) as [[s1 o1] [|c]]; cbn [finish_r NDR] in *.
+    + specialize (IH s1 Hf). destruct (run_timers fuel cfg s1 t) as [s2 o2]. exact IH.
+    + destruct (begin_end s1 c false false) as [s2 o2] eqn:Eb.
+      assert (He : exists te, gw_ending s2 = Some te).
+      { unfold begin_end in Eb. injection Eb as <- _. cbn. eauto. }
+      destruct He as [te He]. pose proof (run_timers_ending cfg t fuel s2 te He) as Hr.
+      destruct (run_timers fuel cfg s2 t) as [s3 o3]. cbn [fst] in *. intros Hr'. congruence.
+Qed.
+
+Lemma connected_ND s : connected s = true <-> ND s.
+Proof. unfold connected, ND. destruct (gw_st s); cbn; split; congruence. Qed.
+
+Theorem step_connected cfg s ev :
+  connected s = true -> running (fst (gw_step cfg s ev)) = true -> connected (fst (gw_step cfg s ev)) = true.
+Proof.
+  intros Hc. apply connected_ND in Hc. intros Hr. apply connected_ND. revert Hr.
+  unfold gw_step. destruct (gw_ended s) eqn:Ee; [intros _; exact Hc|].
+  destruct ev as [dg|m| | |d|].
+  - destruct (gw_ending s); [intros _; exact Hc|].
+    destruct (read_dgram dg) as [p|e|ps]; apply finish_r_nd; try exact I.
+    apply handle_sn_nd'. exact Hc.
+  - destruct (gw_ending s); [intros _; exact Hc|]. apply finish_r_nd, handle_mq_nd'. exact Hc.
+  - destruct (gw_ending s); [intros _; exact Hc|]. apply finish_r_nd. exact I.
+  - destruct (gw_ending s); [intros _; exact Hc|]. apply finish_r_nd. exact I.
+  - pose proof (run_timers_nd' cfg (gw_now s + d) (advance_fuel cfg s d) s Hc) as Hrt.
+    destruct (run_timers (advance_fuel cfg s d) cfg s (gw_now s + d)) as [s' o]. cbn [fst] in *.
+    destruct (gw_ended s') eqn:Ee'; [intros Hr; unfold running in Hr; rewrite Ee' in Hr; discriminate|].
+    intros Hr. eapply ND_same; [|apply Hrt]; [reflexivity|]. exact Hr.
+  - destruct (gw_ending s); [intros _; exact Hc|]. apply finish_r_nd. exact I.
+Qed.
